@@ -13,6 +13,7 @@ import (
 	"path/filepath"
 	"runtime"
 	"strconv"
+	"strings"
 	"sync"
 	"time"
 
@@ -68,8 +69,9 @@ func (t *tapListener) Accept() (net.Conn, error) {
 	c, err := t.Listener.Accept()
 	if err == nil {
 		t.mu.Lock()
-		t.last[goid()] = c.RemoteAddr().String()
 		t.accepted++
+		// (bookkeeping only: the connection itself is handed on untouched)
+		t.last[goid()] = fmt.Sprintf("%s#%d", c.RemoteAddr().String(), t.accepted)
 		t.mu.Unlock()
 	}
 	return c, err
@@ -113,19 +115,20 @@ type RigConfig struct {
 // Rig is a loopback listener with the intercepting listener on top and accept
 // loops that report every Accept outcome.
 type Rig struct {
-	W       *World
-	Ln      *protocol.InterceptingListener
-	Addr    string
-	tap     *tapListener
-	mu      sync.Mutex
-	results []AcceptResult
-	cond    *sync.Cond
-	wg      sync.WaitGroup
-	sockDir string
-	closed  bool
-	total   int            // outcomes already handed out by Sync
-	alive   int            // accept loops still running
-	Final   []AcceptResult // non-temporary results that ended accept loops
+	W          *World
+	Ln         *protocol.InterceptingListener
+	Addr       string
+	tap        *tapListener
+	mu         sync.Mutex
+	results    []AcceptResult
+	cond       *sync.Cond
+	wg         sync.WaitGroup
+	sockDir    string
+	closed     bool
+	total      int            // outcomes already handed out by Sync
+	alive      int            // accept loops still running
+	Final      []AcceptResult // non-temporary results that ended accept loops
+	syncedUpTo int            // unix: number of raw connections covered by earlier Syncs
 	// StallIsResult: when the listener stops producing outcomes although accept
 	// loops are still inside Accept (a handshake callback that never returns), Sync
 	// returns what it has with Stalled set instead of panicking
@@ -243,20 +246,38 @@ func (r *Rig) Sync() []AcceptResult {
 	deadline := time.Now().Add(60 * time.Second)
 	r.mu.Lock()
 	defer r.mu.Unlock()
+	seqOf := func(remote string) int {
+		n := 0
+		if i := strings.LastIndex(remote, "#"); i >= 0 {
+			fmt.Sscanf(remote[i+1:], "%d", &n)
+		}
+		return n
+	}
 	for {
 		r.tap.mu.Lock()
 		accepted := r.tap.accepted
 		r.tap.mu.Unlock()
 		idx := -1
 		if network == "unix" {
-			// the sentinel is the last raw connection: done when all accepted conns
-			// produced an outcome and at least one outcome exists
-			if len(r.results) > 0 && r.processed() == accepted && r.results[len(r.results)-1].Conn == nil {
-				idx = len(r.results) - 1
+			// unix clients have no distinct address. The sentinel was the last connection
+			// made, so it is the raw connection accepted last: done when every accepted
+			// connection produced an outcome and the outcome of the highest-numbered one
+			// is among them (and is a failure without connection, as a sentinel's is)
+			if len(r.results) > 0 && r.processed() == accepted && accepted > r.syncedUpTo {
+				best := -1
+				for i, x := range r.results {
+					if best < 0 || seqOf(x.Remote) > seqOf(r.results[best].Remote) {
+						best = i
+					}
+				}
+				if seqOf(r.results[best].Remote) == accepted && r.results[best].Conn == nil {
+					idx = best
+					r.syncedUpTo = accepted
+				}
 			}
 		} else {
 			for i, x := range r.results {
-				if x.Remote == sentinel {
+				if strings.HasPrefix(x.Remote, sentinel+"#") {
 					idx = i
 				}
 			}
